@@ -536,6 +536,15 @@ where
         #[cfg(debug_assertions)]
         tracing::trace!(id=%self.id, "drop for checkout");
 
+        // A connection taken from the pool which was never handed out goes back to the pool.
+        if let Some(connection) = self.as_mut().project().connection.take() {
+            drop(Pooled {
+                connection: Some(connection),
+                token: self.token,
+                pool: self.pool.clone(),
+            });
+        }
+
         if let Some(checkout) = self.as_mut().as_delayed() {
             tokio::task::spawn(async move {
                 if let Err(err) = checkout.await {
